@@ -17,6 +17,7 @@ func Verif_C20_Total(k, n int) {
 	s := verifsym.String(n)
 	verifsym.Assume(utf8.ValidString(s))
 	r := vRule(k)
+	r.cache.Clear()
 	out := ""
 	panicked := verifsym.Panics(func() { out = r.inflected(s) })
 	verifsym.Assert(!panicked, "inflection panics")
@@ -26,6 +27,7 @@ func Verif_C20_Total(k, n int) {
 	a := r.Inflected(s)
 	b := r.Inflected(s)
 	verifsym.Assert(a == out && b == out, "memoised result differs from the computed one")
+	verifsym.Observe("out", out)
 	verifsym.Reach("end")
 }
 
@@ -99,9 +101,37 @@ func Verif_C20_RegexpDiff(k, chunk int) {
 			if cr.Regexp.MatchString(s) {
 				hits = append(hits, i)
 				verifsym.Observe("rule", cr.Regexp.FindStringSubmatchIndex(s))
+				verifsym.Observe("repl", cr.Regexp.ReplaceAllString(s, cr.Replacement))
 			}
 		}
 		verifsym.Observe("hits", hits)
+		verifsym.Observe("inflected", r.inflected(s))
 	}
+	verifsym.Reach("end")
+}
+
+// Verif_C20_CallHistory: "the same result for the same input on every call",
+// over call histories through the memoising wrapper: for two arbitrary inputs
+// s1 (n1 bytes) and s2 (n2 bytes), Inflected(s1), Inflected(s2), Inflected(s1)
+// again - and Inflected of the first result - all agree with the uncached
+// computation. (A cache entry created as a side effect of another call shows
+// here.)
+func Verif_C20_CallHistory(k, n1, n2 int) {
+	s1, s2 := verifsym.String(n1), verifsym.String(n2)
+	verifsym.Assume(utf8.ValidString(s1))
+	verifsym.Assume(utf8.ValidString(s2))
+	r := vRule(k)
+	r.cache.Clear() // natively the cache outlives a replayed case: start every history from an empty cache
+	want1, want2 := r.inflected(s1), r.inflected(s2)
+	a := r.Inflected(s1)
+	b := r.Inflected(s2)
+	c := r.Inflected(s1)
+	verifsym.Assert(a == want1, "first call differs from the computed result")
+	verifsym.Assert(b == want2, "a call after another input differs from the computed result (cache entry created by the earlier call?)")
+	verifsym.Assert(c == want1, "a repeated call returns a different result")
+	d := r.Inflected(want2)
+	verifsym.Assert(d == r.inflected(want2), "inflecting an earlier result differs from the computed result")
+	verifsym.Observe("a", a)
+	verifsym.Observe("b", b)
 	verifsym.Reach("end")
 }
